@@ -261,6 +261,48 @@ theorem du_task_error_again (d : DataExpr) (env₁ : Env) (st₁ : St) (t₁ : T
   refine ⟨st₂.pushIn d.file d.line d.col k, ?_, rfl, rfl, rfl, rfl, rfl, rfl⟩
   simp only [runTask, runDataTask, h2 env₂ st₂ t₂ b hT₂]
 
+/-! ## tables without Deferred names (up to `MergeNeut`) -/
+
+/-- over a table without Deferred names every operand has `ErrAgainT`, unless its evaluation fails inside the deep
+`neutralize` that follows a constant merge (`Simp.MergeNeut`; no such failure changes on re-evaluation in 12.6M searched
+cases, but it is not proved) -/
+theorem errAgainT_nodef_partial {t : Table} (hn : Table.NoDef t) (a : Arg) :
+    ErrAgainT t a ∨
+    ∃ e t', Simp.evaluateE (fun n => t.get n) Front.isRegister a = .err e t' ∧ Simp.MergeNeut Front.isRegister e := by
+  cases h : Simp.evaluateE (fun n => t.get n) Front.isRegister a with
+  | err e t' =>
+    rcases Simp.evaluateE_error_again_partial (Table.nodef_get hn) h with ok | mn
+    · left; intro e2 t2 h2 lk₂
+      rw [h] at h2
+      simp only [Simp.EvE.err.injEq] at h2
+      obtain ⟨rfl, rfl⟩ := h2
+      exact ok lk₂
+    · exact .inr ⟨e, t', rfl, mn⟩
+  | ok ev x => left; intro e2 t2 h2; rw [h] at h2; cases h2
+  | nosuch n x => left; intro e2 t2 h2; rw [h] at h2; cases h2
+  | panic => left; intro e2 t2 h2; rw [h] at h2; cases h2
+
+/-- C08 (instruction statement DIAGNOSED at its first attempt, table without Deferred names, `_partial`)  The re-run over
+ANY table ends with the same diagnostic and the same state — never completes — unless the evaluation of one operand failed
+inside the deep `neutralize` after a constant merge. -/
+theorem stmt_error_again_nodef_partial {t₁ : Table} (hn : Table.NoDef t₁) (addr : Nat) (name : Bytes) (args : List Arg)
+    (d : Front.Diag) (fs1 : Front.St)
+    (h1 : Front.build addr name args (frontEval t₁) true = .error d fs1) (t₂ : Table) (loc : Bool) :
+    Front.assemble fs1 (frontEval t₂) loc = (fs1, .error d) ∨
+    ∃ a ∈ args, ∃ e t', Simp.evaluateE (fun n => t₁.get n) Front.isRegister a = .err e t' ∧
+      Simp.MergeNeut Front.isRegister e := by
+  by_cases hall : ∀ a ∈ args, ErrAgainT t₁ a
+  · exact .inl (stmt_error_again addr name args hall d fs1 h1 t₂ loc)
+  · right
+    have : ∃ a, a ∈ args ∧ ¬ ErrAgainT t₁ a := by
+      apply Classical.byContradiction
+      intro hne
+      exact hall fun a ha => Classical.byContradiction fun hna => hne ⟨a, ha, hna⟩
+    obtain ⟨a, ha, hna⟩ := this
+    rcases errAgainT_nodef_partial hn a with h | h
+    · exact absurd h hna
+    · exact ⟨a, ha, h⟩
+
 /-! ## on the whole pipeline -/
 
 def exDiv : Bytes := bytesOf ".addr 0x20000000;\n.du8 1/0;\n"
